@@ -10,6 +10,10 @@ import pox.lib.util as util   # noqa: E402
 # a pong runs on the scheduler thread: one that has not returned after this long has stopped the scheduler.
 # (generous: only ever waited for on a pinger that really blocks)
 BLOCK_AFTER = float(os.environ.get("VERIF_C07_BLOCK_AFTER", "12"))
+try:      # a crowded machine must never become a verdict: the limit grows with the load
+  BLOCK_AFTER *= max(1.0, os.getloadavg()[0] / (os.cpu_count() or 1))
+except OSError:
+  pass
 
 
 class Adapter(object):
